@@ -77,6 +77,8 @@ pub struct TableProvider {
     pub union_iter_unbounded: Cell<bool>,
     /// once cancellation has been signalled the provider completes no request any more
     pub freeze_on_cancel: Cell<bool>,
+    /// SortProbe::DepsAbandon: one nested request has been abandoned already
+    pub abandoned_once: Cell<bool>,
 }
 
 impl TableProvider {
@@ -100,6 +102,7 @@ impl TableProvider {
             filter_reversed: Cell::new(false),
             union_iter_unbounded: Cell::new(false),
             freeze_on_cancel: Cell::new(false),
+            abandoned_once: Cell::new(false),
         }
     }
 
@@ -350,8 +353,17 @@ impl DependencyProvider for TableProvider {
             if let Some(&s0) = solvables.first() {
                 if self.sref(s0).listed {
                     let mut fut = Box::pin(solver.get_or_cache_dependencies(s0));
-                    let _ = futures::future::poll_fn(|cx| std::task::Poll::Ready(std::future::Future::poll(fut.as_mut(), cx).is_ready())).await;
-                    drop(fut);
+                    let ready = futures::future::poll_fn(|cx| std::task::Poll::Ready(std::future::Future::poll(fut.as_mut(), cx).is_ready())).await;
+                    if !ready && !self.abandoned_once.get() {
+                        // the first such call gives up after a while: other callers (the sorts of
+                        // sibling version sets, the solver itself) may be waiting for this very
+                        // request by then
+                        self.abandoned_once.set(true);
+                        self.gate(ReqKind::Sort, s0.0).await;
+                        drop(fut);
+                    } else if !ready {
+                        let _ = fut.await;
+                    }
                 }
             }
         }
